@@ -100,6 +100,16 @@ func runCorpus(p corpus.Program) {
 		return
 	}
 	if !sameOutcome(res.JS[0], res.Native[0]) {
+		// known finding C01-initorder: the lines printed by independent initialisers may come in
+		// another order than under the reference toolchain; everything else must agree
+		if f := drv.MatchRow("C01", "initorder"); f != nil {
+			js, nat := res.JS[0], res.Native[0]
+			js.Trace, nat.Trace = sortInitLines(js.Trace), sortInitLines(nat.Trace)
+			if sameOutcome(js, nat) {
+				ev.Known(f)
+				return
+			}
+		}
 		ev.Violation(fmt.Sprintf("corpus program %s: %s", p.Name, drv.FirstDiff(res.JS[0], res.Native[0])), c.ReproFiles())
 	}
 }
@@ -211,4 +221,23 @@ func replayFinding(f *drv.Finding) {
 	if !sameOutcome(res.JS[0], res.Native[0]) {
 		ev.Known(f)
 	}
+}
+
+// sortInitLines sorts the lines printed by package-level initialisers of the unit programs among
+// themselves, leaving every other line in place.
+func sortInitLines(trace []string) []string {
+	out := append([]string{}, trace...)
+	var idx []int
+	var lines []string
+	for i, l := range out {
+		if strings.Contains(l, " side effect ") || strings.HasSuffix(l, " called") {
+			idx = append(idx, i)
+			lines = append(lines, l)
+		}
+	}
+	sort.Strings(lines)
+	for k, i := range idx {
+		out[i] = lines[k]
+	}
+	return out
 }
